@@ -9,7 +9,7 @@ from framework import Result, finish, proof_obligations
 
 PROP = "C14"
 NEEDS = ["model/Ebnf.v", "model/Chars.v", "model/Lexer.v", "gen/G4Data.v", "gen/AtnData.v", "proofs/LrecP.v", "proofs/GrammarP.v",
-         "proofs/EbnfP.v", "proofs/LexerP.v", "proofs/ArtefactsP.v", "extract/Extract.v"]
+         "proofs/EbnfP.v", "proofs/LexerP.v", "proofs/ArtefactsP.v", "extract/Extract.v", "proofs/LexTotalP.v"]
 
 ALPHABET = list("0123456789") + list("eEjJqpixnaMTFu") + list("+-*/=.,:\"()[]{}|#_ \t\n\r") + ["é", " ", "\U0001F600", "\x00", "\x7f", "'", "$", ";"]
 
@@ -139,7 +139,7 @@ def compare_parser(res, model, impl, gr, text, kind):
     res.count("parser:%s:%s" % (kind, "sentence" if mv else "non-sentence"))
     if mv != iv:
         res.violate("Python parser %s a token sequence that blackbird.g4 %s (first parser error: %s)"
-                    % ("accepts" if iv else "rejects", "does not derive" if iv else "derives", errs[:1]),
+                    % ("gives no verdict on" if iv is None else "accepts" if iv else "rejects", "does not derive" if not mv else "derives", errs[:1]),
                     {"check": "parser", "text": text, "kinds": kinds})
         return False
     return True
